@@ -10,6 +10,7 @@ fn main() {
         "mem" => sv::mem::main(&args[2..]),
         "iri" => sv::iri::main(&args[2..]),
         "iso" => sv::iso::main(&args[2..]),
+        "nq" => sv::nq::main(&args[2..]),
         _ => {
             eprintln!("unknown family {fam}");
             std::process::exit(2);
